@@ -94,12 +94,22 @@ func vhBuildGraph(size int) *vhGraph {
 	g.add(&vhNode{name: "L2", body: []byte("layer-two")})
 	g.image("X", []string{"C", "L1"}, "")
 	// A's layer may be L2, shared L1, or the DIGEST OF MANIFEST X (a digest in two roles)
-	layerA := []string{"L2", "X", "L1"}[vh.Choice("layerA", 3)]
+	layerK := vh.Choice("layerA", 3)
+	layerA := []string{"L2", "X", "L1"}[layerK]
 	g.image("A", []string{"C", layerA}, "")
-	kids := [][]string{{"X"}, {"A"}, {"X", "A"}, {"missing"}}
-	g.index("I", kids[vh.Choice("childrenI", 2+2*size)])
+	// (the third shape lists a child that is NOT a manifest: the descriptor of blob L1 with
+	// a layer media type - legal, a manifest PUT only checks that the child exists)
+	kids := [][]string{{"X"}, {"A"}, {"X", "L1"}, {"X", "A"}, {"missing"}}
+	kidsI := vh.Choice("childrenI", 3+2*size)
+	g.index("I", kids[kidsI])
 	// an artifact R with a subject, and the stored referrers response for that subject
-	subjR := []string{"X", "A", "I", "outside"}[vh.Choice("subjectR", 3+size)]
+	// (the subject may be that non-manifest child; quick tier: only together with it)
+	subjK := vh.Choice("subjectR", 4+size)
+	if size == 0 {
+		vh.Assume((kidsI == 2) == (subjK == 3))
+		vh.Assume(kidsI != 2 || layerK == 0)
+	}
+	subjR := []string{"X", "A", "I", "L1", "outside"}[subjK]
 	r := g.image("R", []string{"C", "L2"}, subjR)
 	resp := types.Index{SchemaVersion: 2, MediaType: types.MediaTypeOCI1ManifestList,
 		Manifests: []types.Descriptor{{MediaType: r.mt, Digest: r.dig, Size: int64(len(r.body)), ArtifactType: "application/vnd.test.art"}}}
@@ -371,9 +381,11 @@ func (w *vhGCSetup) vhRetained(cutoffNs int64) {
 					continue
 				}
 				c.retained = vh.Or(c.retained, am)
-				if n.mt == types.MediaTypeOCI1ManifestList && c.mt != "" {
+				if n.mt == types.MediaTypeOCI1ManifestList {
 					// children of a retained index (and manifests listed by a retained
-					// response) are retained AS MANIFESTS
+					// response) are retained AS MANIFESTS; a child that is not a manifest
+					// has no content of its own, but it is a retained subject all the same:
+					// its referrers are retained
 					asManifest[c.name] = vh.Or(asManifest[c.name], am)
 				}
 			}
@@ -710,4 +722,80 @@ func VH_C06_LaterPass() {
 	vh.Assert(vhBlobExists(r, d), "C06.tagged-removed")
 	r.Done()
 	vh.Cover("C06.later-pass-end")
+}
+
+// VH_C06_MemOverDir: the memory store layered over a populated root directory.  Two tagged
+// images are written through the directory store (which is then abandoned), a memory
+// store is opened over the same directory, a symbolic subset of the second image's
+// content is pushed again (a copy in memory shadowing the copy in the directory), the
+// image is deleted by digest or only untagged, and two collection passes run with the
+// grace period disabled.  Exactly the garbage is gone after the FIRST pass as seen through
+// the store (whatever copy a blob had), retained content is intact, no index entry lacks
+// content, and the second pass changes nothing.  The directory itself is C14's subject.
+func VH_C06_MemOverDir() {
+	vhReset()
+	ds := NewDir(vhConf(config.StoreDir))
+	dr := vhRepo(ds, "a")
+	g := &vhGraph{by: map[string]*vhNode{}}
+	g.add(&vhNode{name: "C", body: []byte("{}")})
+	g.add(&vhNode{name: "L1", body: []byte("layer-one")})
+	g.add(&vhNode{name: "L2", body: []byte("layer-two")})
+	g.image("X", []string{"C", "L1"}, "")
+	g.image("A", []string{"C", "L2"}, "")
+	for _, n := range g.nodes {
+		vhPutBlob(dr, n.body)
+		if n.mt != "" {
+			_ = dr.IndexInsert(types.Descriptor{MediaType: n.mt, Digest: n.dig, Size: int64(len(n.body)), Annotations: map[string]string{types.AnnotRefName: "tag-" + n.name}})
+		}
+	}
+	dr.Done()
+	mconf := vhConf(config.StoreMem)
+	mconf.Storage.RootDir = vhRoot
+	untagged := vh.Bool("gcUntagged")
+	mconf.Storage.GC.Untagged = &untagged
+	ms := NewMem(mconf)
+	mr := vhRepo(ms, "a")
+	a := g.by["A"]
+	aDesc := types.Descriptor{MediaType: a.mt, Digest: a.dig, Size: int64(len(a.body))}
+	shadow := vh.Choice("shadow", 4)
+	vh.Tag("shadow", []string{"none", "manifest", "layer", "manifest+layer"}[shadow])
+	if shadow == 1 || shadow == 3 {
+		// the manifest is pushed again under its tag, as manifestPut does it
+		vhPutBlob(mr, a.body)
+		d := aDesc
+		d.Annotations = map[string]string{types.AnnotRefName: "tag-A"}
+		_ = mr.IndexInsert(d)
+	}
+	if shadow == 2 || shadow == 3 {
+		vhPutBlob(mr, g.by["L2"].body)
+	}
+	garbage := true
+	if vh.Bool("deleteByDigest") {
+		vh.Assert(mr.IndexRemove(aDesc) == nil, "C06.setup")
+	} else {
+		d := aDesc
+		d.Annotations = map[string]string{types.AnnotRefName: "tag-A"}
+		vh.Assert(mr.IndexRemove(d) == nil, "C06.setup")
+		garbage = untagged
+	}
+	mr.Done()
+	vclock.Advance(time.Hour)
+	vh.Assert(mr.gc() == nil, "C06.gc-error")
+	for _, n := range g.nodes {
+		vh.Tag("node", n.name)
+		keep := !(garbage && (n.name == "A" || n.name == "L2"))
+		vh.Assert(vhBlobExists(mr, n.dig) == keep, "C06.not-exactly-the-garbage")
+		if !keep {
+			vh.Cover("C06.memoverdir-collected")
+		}
+		vh.Tag("node", "")
+	}
+	idx := vhIndexOf(mr)
+	for _, m := range idx.Manifests {
+		vh.Assert(vhBlobExists(mr, m.Digest), "C06.index-entry-without-content")
+	}
+	before := vhRepoState(mr, g)
+	vh.Assert(mr.gc() == nil, "C06.gc-error")
+	vh.Assert(vhRepoState(mr, g) == before, "C06.second-pass-changed-something")
+	vh.Cover("C06.memoverdir-end")
 }
